@@ -84,12 +84,18 @@ def join_over_none_ends(model, graph, ci, lpath, c2, rpath):
 
 @st.composite
 def c07_ir(draw, tier, exclude):
-    model = draw(MI.model_ir(max_classes=4, grammar="orm", extras=False, uid=True, allow_underscore=False, allow_set=False))
+    model = draw(MI.model_ir(max_classes=4, grammar="orm", extras=False, uid=True, allow_underscore=False, allow_set=False,
+                             chain_bias=True))
     graph = draw(G.graph_ir(model, max_nodes=10, sql=True))
     n_cls = len(model["classes"])
     queries = []
     for _ in range(4 if tier == "quick" else 8):
         ci = draw(st.integers(0, n_cls - 1))
+        outside_a_deep_hierarchy = [c for c in range(n_cls) if any(
+            len(MI.ancestors(model, c2)) >= 2 and c2 != c and c not in MI.ancestors(model, c2) and c2 not in MI.ancestors(model, c)
+            and not set(MI.ancestors(model, c2)) & set(MI.ancestors(model, c)) for c2 in range(n_cls))]
+        if outside_a_deep_hierarchy and draw(st.booleans()):
+            ci = draw(st.sampled_from(outside_a_deep_hierarchy))
         sp = scalar_paths(model, ci)
         rp = ref_paths(model, ci)
         var2 = None
@@ -124,9 +130,12 @@ def c07_ir(draw, tier, exclude):
                 c2 = var2 if var2 is not None else draw(st.integers(0, n_cls - 1))
                 lp, lk = draw(st.sampled_from(sp))
                 cands = [p for p, kk in scalar_paths(model, c2) if kk == lk]
+                # columns the second variable inherits from far up its hierarchy are drawn more often
+                anc = MI.ancestors(model, c2)
+                far = [p for p in cands if len(p) == 1 and len(anc) >= 2 and any(f["name"] == p[0] for a in anc[1:] for f in model["classes"][a]["fields"])]
                 if cands:
                     var2 = c2
-                    return {"c": "cmp2", "lpath": lp, "op": draw(st.sampled_from(sorted(OPS))), "rpath": draw(st.sampled_from(cands))}
+                    return {"c": "cmp2", "lpath": lp, "op": draw(st.sampled_from(sorted(OPS))), "rpath": draw(st.sampled_from(cands + far * 3))}
             if k == "objlit" and rp:
                 p, tgt = draw(st.sampled_from(rp))
                 nodes = [i for i, nd in enumerate(graph["nodes"]) if nd["c"] not in G.EXTRA_NODES and (nd["c"] == tgt or tgt in MI.ancestors(model, nd["c"]))]
@@ -166,6 +175,20 @@ def c07_ir(draw, tier, exclude):
                 lp, c2, p2 = draw(st.sampled_from(pairs))
                 var2 = c2
                 conds.insert(0, {"c": "join", "lpath": lp, "rpath": p2})
+        # a comparison with a column that the second variable inherits from far up its hierarchy needs a class two
+        # levels below a root and a first variable outside that hierarchy; when the model has such a pair it is used often
+        if "two_variable_query" not in exclude and var2 is None and sp and draw(st.sampled_from([0, 1])):
+            deep = [c2 for c2 in range(n_cls) if len(MI.ancestors(model, c2)) >= 2 and c2 != ci
+                    and ci not in MI.ancestors(model, c2) and c2 not in MI.ancestors(model, ci)
+                    and not set(MI.ancestors(model, c2)) & set(MI.ancestors(model, ci))]
+            if deep:
+                c2 = draw(st.sampled_from(deep))
+                lp, lk = draw(st.sampled_from([(p_, k_) for p_, k_ in sp if len(p_) == 1] or sp))
+                far = [p_ for p_, kk in scalar_paths(model, c2) if kk == lk and len(p_) == 1
+                       and any(f["name"] == p_[0] for a in MI.ancestors(model, c2)[1:] for f in model["classes"][a]["fields"])]
+                if far and len(lp) == 1:
+                    var2 = c2
+                    conds.insert(0, {"c": "cmp2", "lpath": lp, "op": draw(st.sampled_from(sorted(OPS))), "rpath": draw(st.sampled_from(far))})
         queries.append({"var": ci, "quant": draw(st.sampled_from(["an", "an", "an", "the"])), "conds": conds, "var2": var2})
     return {"model": model, "graph": graph, "queries": queries}
 
@@ -213,7 +236,7 @@ class C07(Check):
         "SQLite only",
     ]
     budget = {
-        "quick": dict(examples=20, shards=16, seconds=150),
+        "quick": dict(examples=60, shards=16, seconds=150),
         "thorough": dict(examples=500, shards=16, seconds=1500),
     }
 
